@@ -76,6 +76,8 @@ def cases(tier, seed):
     for n in range(1, 5):
         out.append({"id": f"segargmax-float-n{n}-trail[]", "kind": "segargmax", "n": n, "trail": [], "alpha": "float"})
     out.append({"id": "segargmax-float-n3-trail[2]", "kind": "segargmax", "n": 3, "trail": [2], "alpha": "float"})
+    for n in range(1, nmax + 1):
+        out.append({"id": f"reducer-segments-n{n}", "kind": "reducer_seg", "n": n})
     for layout in _reducer_layouts():
         out.append({"id": "reducer-" + "".join(f"{k}{v}" for k, v in layout.items()), "kind": "reducer", "layout": layout, "seed": seed})
     for e in range(len(EXPRS)):
@@ -94,7 +96,7 @@ def cost(case):
 
 
 def case_rank(case):
-    return {"argmax_eager": 0, "argmax": 1, "segargmax": 2, "reducer": 3, "fused": 4, "pipeline": 5}[case["kind"]]
+    return {"argmax_eager": 0, "argmax": 1, "segargmax": 2, "reducer": 3, "reducer_seg": 3, "fused": 4, "pipeline": 5}[case["kind"]]
 
 
 # --------------------------------------------------------------------------------------
@@ -345,6 +347,35 @@ def _run_reducer(case):
     return outcome(status="violation" if viols else "ok", violations=viols, states=n, transitions=4, traces=4, digest=digest(dig))
 
 
+def _run_reducer_seg(case):
+    """Segment-maximum reduction on ALL contiguous segmentations (synthetic segments, real reducer)."""
+    import jax
+    import jax.numpy as jnp
+    from lcm.discrete_problem import _solve_discrete_problem_no_shocks as red
+
+    n = case["n"]
+    viols, cnt, dig = [], 0, []
+    for trail, axes in (((), None), ((2,), (1,)), ((2,), None)):
+        A = _all_arrays((n, *trail), [0, 1, 2]).astype(np.float64)
+        for cuts in itertools.product([0, 1], repeat=n - 1):
+            ids = np.concatenate([[0], np.cumsum(cuts)]).astype(np.int32)
+            k = int(ids[-1]) + 1
+            seg = {"segment_ids": jnp.asarray(ids), "num_segments": k}
+            f = jax.jit(jax.vmap(lambda v: red(v, choice_axes=axes, choice_segments=seg, params={})))
+            got = np.asarray(f(jnp.asarray(A)))
+            dig.append(got)
+            for s_ in range(k):
+                rows = np.where(ids == s_)[0]
+                sub = A[:, rows]
+                exp = sub.max(axis=(1, 2)) if axes else sub.max(axis=1)
+                cnt += len(A)
+                bad = got[:, s_] != exp
+                if np.any(bad) and not viols:
+                    i = int(np.argwhere(bad.reshape(len(A), -1).any(axis=1))[0][0])
+                    viols.append(violation("reducer-segments", "jit", "VALUE", f"values={A[i].tolist()} segment_ids={ids.tolist()} dense_choice_axes={axes}: state {s_} reduced to {got[i, s_].tolist()}, maximum over its choices is {exp[i].tolist()}"))
+    return outcome(status="violation" if viols else "ok", violations=viols, states=cnt, transitions=cnt, traces=cnt, digest=digest(dig))
+
+
 # ---------------------------------------------------------------------------- fused clause
 EXPRS = [
     ("log(x)+0.3*y", lambda np_, x, y: np_.log(x) + 0.3 * y),
@@ -418,6 +449,7 @@ def run_case(case):
         "argmax_eager": _run_argmax_eager,
         "segargmax": _run_segargmax,
         "reducer": _run_reducer,
+        "reducer_seg": _run_reducer_seg,
         "fused": _run_fused,
         "pipeline": _run_pipeline,
     }[case["kind"]](case)
